@@ -118,6 +118,10 @@ REG.contract("opaque.shape.setter", assumed=True, params=dict(self=OpaqueT, shap
              ensures=["result == np_reshape(self, shape)", "np_shape(result) == shape",
                       "np_is_double(result) == np_is_double(self)"],
              note="ndarray.shape = s: the same elements under a new shape (in place)")
+REG.contract("opaque.reshape", assumed=True, params=dict(self=OpaqueT, shape=SeqOf(Int)), result=OpaqueT,
+             ensures=["result == np_reshape(self, shape)", "np_shape(result) == shape",
+                      "np_is_double(result) == np_is_double(self)"],
+             note="ndarray.reshape(shape): the same elements under a new shape")
 REG.contract("opaque.astype", assumed=True, params=dict(self=OpaqueT, dtype=Dyn), result=OpaqueT,
              ensures=["result == np_astype(self, dtype)", "np_shape(result) == np_shape(self)",
                       "(dtype == boxed(DataType.Double)) implies np_is_double(result)"],
